@@ -15,6 +15,7 @@ mod c09;
 mod c10;
 mod c11;
 mod c12;
+mod c13;
 mod modsplit;
 mod c14;
 mod c15;
@@ -30,7 +31,7 @@ use engine::*;
 
 fn checks() -> Vec<Box<dyn Check>>
 {
-	vec![Box::new(c01::C01), Box::new(c02::C02), Box::new(c03::C03), Box::new(c04::C04), Box::new(c05::C05), Box::new(c06::C06), Box::new(c07::C07), Box::new(c08::C08), Box::new(c09::C09), Box::new(c10::C10), Box::new(c11::C11), Box::new(c12::C12), Box::new(c14::C14), Box::new(c15::C15), Box::new(c19::C19)]
+	vec![Box::new(c01::C01), Box::new(c02::C02), Box::new(c03::C03), Box::new(c04::C04), Box::new(c05::C05), Box::new(c06::C06), Box::new(c07::C07), Box::new(c08::C08), Box::new(c09::C09), Box::new(c10::C10), Box::new(c11::C11), Box::new(c12::C12), Box::new(c13::C13), Box::new(c14::C14), Box::new(c15::C15), Box::new(c19::C19)]
 }
 
 fn main()
@@ -42,6 +43,11 @@ fn main()
 		Some("worker") =>
 		{
 			worker_main(&checks);
+		}
+		Some("digest") =>
+		{
+			install_panic_hook();
+			c13::digest_main();
 		}
 		Some("check") =>
 		{
